@@ -900,13 +900,13 @@ Proof.
         destruct (inv_path s I _ _ Hts) as (_ & q0' & Hq0' & _ & _ & Hqo).
         assert (q0' = q0) by (apply (app_inv_tail [t_base (tr s)]); eapply is_path_det; eauto). subst q0'.
         destruct (cm_surv_path s s1 diff parent nb dr di dn dss pr pi pn pss pp qp b f I Hdiff Hparent Hpp Hnd Hobj HEv Hge Hnb
-                    Rm cl br Hobr HR4 HR5 HR6' HR7 HR8 _ _ _ Hq0 Hqo Hts Hn Hne) as (q1 & rest & Hsplit & Hp2 & Hz).
+                    Rm cl br Hobr HR4 HR5 HR6' HR7 HR8 _ _ _ Hq0 Hqo Hts Hn Hne) as (q1 & rest & Hsplit & Hpn & Hz).
         assert (Hrest : rest = qp ++ [t_base (tr s)]).
         { rewrite Hsplit in Hq0. apply is_path_suffix in Hq0. pose proof (is_path_det _ _ _ _ Hq0 Hpp) as E. now inversion E. }
         subst rest.
         destruct (sem_fold _ r x I' Hx) as (q' & Hq' & Hs' & Hn'). cbn [tr with_tr t_base] in *.
         assert (q' ++ [nb] = q1 ++ [nb]).
-        { eapply is_path_det; [exact Hq'|]. eapply is_path_ext; [|exact Hp2]. reflexivity. }
+        { eapply is_path_det; [exact Hq'|]. eapply is_path_ext; [|exact Hpn]. reflexivity. }
         rewrite H in *. rewrite Hsplit in *.
         match type of Hs' with forall k, _ = Ok (fold_state ?y _ k) => set (sF := y) in * end.
         destruct (fold_prefix s sF q1 [nb] (parent :: qp ++ [t_base (tr s)])) as (F1 & F2); try discriminate.
@@ -917,4 +917,98 @@ Proof.
         -- intros k. cbn [fold_state]. destruct (DS_ext s2 sF nb eq_refl eq_refl eq_refl) as (D3 & _). now rewrite D3, D1, Hs1.
         -- intros k. cbn [fold_node]. destruct (DS_ext s2 sF nb eq_refl eq_refl eq_refl) as (_ & D4). now rewrite D4, D2, Hn1.
         -- split; intros k; [rewrite Hs', Hs, F1|rewrite Hn', Hnn, F2]; reflexivity.
+Qed.
+
+(* ---- every operation keeps the meaning of every surviving root ------------------------------------ *)
+Lemma add_live_mono s root parent nodes states s' r :
+  tree_add s root parent nodes states = (s', Ok tt) -> In r (live_roots s) -> In r (live_roots s').
+Proof.
+  intros E Hl. unfold tree_add in E. destruct (root =? parent); [discriminate|].
+  destruct (tget s root) eqn:Hr; [inversion E; subst; auto|].
+  destruct (tget s parent) as [p|]; [|discriminate]. destruct (hget s p); [|discriminate].
+  inversion E; subst. apply live_iff in Hl. destruct Hl as (lid & Ht). apply live_iff.
+  exists lid. unfold tget, with_tr. cbn [tr t_layers]. rewrite (aget_aset N.eqb N.eqb_eq).
+  destruct (r =? root) eqn:E1; auto. apply N.eqb_eq in E1. subst r. rewrite Hr in Ht. discriminate.
+Qed.
+
+Theorem step_sem s o s' : Inv4 s -> step s o = (s', Ok tt) -> Inv4 s' /\ sem_same s s'.
+Proof.
+  intros I4 H. destruct o as [root parent states nodes|root layers|root|]; cbn [step] in H.
+  - unfold db_update in H.
+    destruct (tree_add s root parent (nset_of_list nodes) (sset_of_list states)) as [s1 r1] eqn:Ea.
+    destruct r1 as [[]| |]; try (inversion H; fail).
+    destruct (add_sem s root parent _ _ s1 I4 (kv_of_list_nodup skey_eqb skey_hdr skey_eqb_spec states)
+                (kv_of_list_nodup nkey_eqb nkey_hdr nkey_eqb_spec nodes) Ea) as (I1 & S1).
+    destruct (cap_sem s1 root _ s' I1 H) as (I2 & S2). split; auto.
+    intros r Hl Hl'. pose proof (add_live_mono _ _ _ _ _ _ r Ea Hl) as Hl1.
+    destruct (S1 r Hl Hl1) as (A1 & A2). destruct (S2 r Hl1 Hl') as (B1 & B2).
+    split; intros k; [rewrite B1, A1|rewrite B2, A2]; reflexivity.
+  - eapply cap_sem; eauto.
+  - unfold db_commit in H. eapply cap_sem; eauto.
+  - inversion H; subst. now apply flush_sem.
+Qed.
+
+Theorem run_inv4 : forall h s s', Inv4 s -> run s h = Some s' -> Inv4 s'.
+Proof.
+  induction h as [|o h IH]; intros s s' I4 H; cbn [run] in H.
+  - inversion H; subst; auto.
+  - destruct I4 as (I3 & Hk & Hc). destruct (step_total s o I3) as [(s1 & E & I1)|(e & E)]; rewrite E in H.
+    + eapply IH; [|exact H]. eapply step_sem; eauto. split; auto.
+    + eapply IH; [|exact H]. split; auto.
+Qed.
+
+Theorem cap_preserves_sem c h s o s' :
+  c_relink c = true -> run (init_db c) h = Some s -> step s o = (s', Ok tt) ->
+  forall r, In r (live_roots s) -> In r (live_roots s') ->
+    (forall k, sem_state s' r k = sem_state s r k) /\ (forall k, sem_node s' r k = sem_node s r k).
+Proof.
+  intros Hc Hr Hs. pose proof (run_inv4 h _ _ (init_inv4 c Hc) Hr) as I4.
+  destruct (step_sem s o s' I4 Hs) as (_ & S). exact S.
+Qed.
+
+(* the meaning of a newly added root: its diff over the meaning of its parent *)
+Theorem add_new_sem s root parent nodes states s' p :
+  Inv4 s -> NoDup (map fst (kv_data states)) -> NoDup (map fst (kv_data nodes)) ->
+  tget s root = None -> tget s parent = Some p ->
+  tree_add s root parent nodes states = (s', Ok tt) ->
+  (forall k, exists v, sem_state s parent k = Ok v /\
+     sem_state s' root k = Ok (match aget skey_eqb (kv_data states) k with Some w => w | None => v end)) /\
+  (forall k, exists v, sem_node s parent k = Ok v /\
+     sem_node s' root k = Ok (match aget nkey_eqb (kv_data nodes) k with Some w => w | None => v end)).
+Proof.
+  intros I4 Hns Hnn Hr Hp E. destruct (add_sem s root parent nodes states s' I4 Hns Hnn E) as (I4' & _).
+  destruct I4 as (((I & _) & _) & _). destruct I4' as (((I' & _) & _) & _).
+  unfold tree_add in E. destruct (root =? parent); [discriminate|]. rewrite Hr, Hp in E.
+  destruct (hget s p) as [pl|] eqn:Hpl; [|discriminate]. inversion E; subst s'. clear E.
+  set (l := Diff root (layer_id pl + 1) nodes states p) in *.
+  match goal with I0 : Inv ?x |- _ => match x with with_tr _ _ => set (s' := x) in * end end.
+  assert (Hg : forall x l0, hget s x = Some l0 -> hget s' x = Some l0).
+  { intros x l0 Hx. change (hget s' x) with (hget (with_heap s (heap s ++ [l])) x). rewrite hget_alloc.
+    pose proof (hget_lt _ _ _ Hx). destruct (Nat.eqb x (length (heap s))) eqn:E; [apply Nat.eqb_eq in E; lia|auto]. }
+  assert (Hnew : hget s' (length (heap s)) = Some l).
+  { change (hget s' (length (heap s))) with (hget (with_heap s (heap s ++ [l])) (length (heap s))). now rewrite hget_alloc, Nat.eqb_refl. }
+  assert (Ht : tget s' root = Some (length (heap s))).
+  { unfold tget, s', with_tr. cbn [tr t_layers]. now rewrite (aget_aset N.eqb N.eqb_eq), N.eqb_refl. }
+  destruct (sem_fold s parent p I Hp) as (q & Hq & Hs & Hn).
+  destruct (sem_fold s' root _ I' Ht) as (q' & Hq' & Hs' & Hn').
+  change (t_base (tr s')) with (t_base (tr s)) in *.
+  assert (Hqe : forall x, In x (q ++ [t_base (tr s)]) -> hget s' x = hget s x).
+  { intros x Hx. destruct (is_path_in_some _ _ _ _ Hq Hx) as (l0 & Hl0). rewrite Hl0. now apply Hg. }
+  assert (Hpath : q' ++ [t_base (tr s)] = length (heap s) :: q ++ [t_base (tr s)]).
+  { eapply is_path_det; [exact Hq'|]. split; auto. rewrite Hnew.
+    destruct (q ++ [t_base (tr s)]) as [|y r0] eqn:Eq; [destruct q; discriminate|].
+    assert (y = p) by (destruct Hq as [Hy _]; exact Hy). subst y. split; [unfold l; eauto|].
+    eapply is_path_ext; [|exact Hq]. exact Hqe. }
+  rewrite Hpath in *.
+  destruct (fold_ext s s' eq_refl eq_refl _ Hqe) as (F1 & F2).
+  destruct (q ++ [t_base (tr s)]) as [|y r0] eqn:Eq; [destruct q; discriminate|].
+  split; intros k.
+  - exists (fold_state s (y :: r0) k). split; [apply Hs|]. rewrite Hs'.
+    change (fold_state s' (length (heap s) :: y :: r0) k) with
+      (match hget s' (length (heap s)) with Some (Diff _ _ _ ss0 _) => over skey_eqb (kv_data ss0) (fold_state s' (y :: r0)) k | _ => [] end).
+    rewrite Hnew. unfold l, over. now rewrite F1.
+  - exists (fold_node s (y :: r0) k). split; [apply Hn|]. rewrite Hn'.
+    change (fold_node s' (length (heap s) :: y :: r0) k) with
+      (match hget s' (length (heap s)) with Some (Diff _ _ nn0 _ _) => over nkey_eqb (kv_data nn0) (fold_node s' (y :: r0)) k | _ => [] end).
+    rewrite Hnew. unfold l, over. now rewrite F2.
 Qed.
